@@ -121,6 +121,26 @@ def constant_name_matcher(rec, params):
     return re.search(r"\.%s\b|\b%s=|^(global|nonlocal|import) (\w+, )*%s\b|\bas %s\b|^def \w+\([^)]*\b%s\b|lambda [^:]*\b%s\b" % ((c,) * 6), line) is not None
 
 
+def negative_literal_matcher(rec, params):
+    """a negative numeric literal is compiled to Constant(-n); ast.unparse prints it without parentheses, so `-1 ** 2`,
+    `-5 .bit_length()`, `-1[...]` bind differently in the printed source"""
+    import re
+    pat = r"(?<![\w.)\]])-\d[\d_.]*(e[+-]?\d+)?j?(\s*\*\*|\s*\.\s*[A-Za-z_]|\[)"
+    py = rec.get("input", {}).get("python", "")
+    if rec.get("key", "").startswith("behaviour-differs:"):
+        return re.search(pat, py) is not None
+    if _parse_failure(rec):
+        return re.search(pat, _bad_line(rec)) is not None
+    return False
+
+
+def starred_annotation_matcher(rec, params):
+    """#^ (unpack-iterable x) as a parameter or return annotation: compile() accepts Starred there, the printed `def f(a: *x)` / `-> *x` does not parse"""
+    import re
+    line = _bad_line(rec)
+    return _parse_failure(rec) and re.match(r"^(async )?def ", line) is not None and re.search(r"(: |-> )\*", line) is not None
+
+
 def import_dot_matcher(rec, params):
     import re
     return _parse_failure(rec) and re.match(r"^import \.+( as \w+)?(, .*)?$", _bad_line(rec)) is not None
@@ -324,6 +344,19 @@ def hy2py_end_to_end(chk, hy, n):
     gen = run_gen.RG(rng)
     for i in range(n):
         src = gen.program()
+        mod = types.ModuleType("zq_c14_pre")
+        sys.modules["zq_c14_pre"] = mod
+        try:
+            with warnings.catch_warnings():
+                warnings.simplefilter("ignore")
+                compile(hy.compiler.hy_compile(hy.read_many(src), mod, source=src, filename="<c14>"), "<c14>", "exec")
+        except BaseException as e:
+            if isinstance(e, KeyboardInterrupt):
+                raise
+            chk.count("filtered:hy2py:compile-error")
+            continue
+        finally:
+            sys.modules.pop("zq_c14_pre", None)
         buf = io.StringIO()
         opts = argparse.Namespace(with_source=False, with_ast=False, without_python=False, output=None)
         try:
@@ -333,12 +366,6 @@ def hy2py_end_to_end(chk, hy, n):
         except BaseException as e:
             if isinstance(e, KeyboardInterrupt):
                 raise
-            from hy.errors import HyLanguageError
-            if isinstance(e, (HyLanguageError, SyntaxError, SystemExit)) or type(e).__name__ in ("ValueError", "SystemError", "TypeError") \
-                    and "unparse" not in "".join(__import__("traceback").format_tb(e.__traceback__)):
-                # the compiler rejected the program (C10's subject)
-                chk.count("filtered:hy2py:compile-error")
-                continue
             chk.fail("hy2py-raises:" + type(e).__name__, {"program": src}, str(e)[:200], "Python source", "hy2py on the program")
             continue
         chk.count("hy2py:programs")
@@ -364,6 +391,8 @@ def run(chk):
     chk.matchers["c14_class_kwd_unmangled"] = class_kwd_unmangled_matcher
     chk.matchers["c14_constant_name"] = constant_name_matcher
     chk.matchers["c14_import_dot"] = import_dot_matcher
+    chk.matchers["c14_starred_annotation"] = starred_annotation_matcher
+    chk.matchers["c14_negative_literal"] = negative_literal_matcher
     chk.matchers["c14_except_without_type"] = except_without_type_matcher
     thorough = chk.tier == "thorough"
     ok = chk.prove("Props/C14.v", ["Props/C14.vo"], [valid_keywords.translate])
